@@ -15,6 +15,7 @@
 //	cbs …same…                                real coinbase SanityCheck first, then the context check
 //	sw <validate> <nArb> <k> {<index>}*k      signer loop of checkSchnorrWithdrawFromSidechain
 //	blk <auxOk> <powOk> <tsOk> <maxTx> <flags> CheckBlockSanity on an assembled, serialized and decoded block (see execBlk)
+//	rcr <code> / ina <tx|bc> <code>            RegisterCR key extraction; checkCRCArbitratorsSignatures m/n read (see execRcr, execIna)
 //	rdc <addrs> <np> {<code> <registered>}*    ReturnDepositCoin SpecialContextCheck signer loop (see execRdc)
 package main
 
@@ -25,6 +26,9 @@ import (
 	"math"
 	"math/big"
 	mrand "math/rand"
+	"os"
+	"regexp"
+	"runtime/debug"
 	"strconv"
 	"strings"
 	"time"
@@ -36,6 +40,7 @@ import (
 	"github.com/elastos/Elastos.ELA/common"
 	"github.com/elastos/Elastos.ELA/common/config"
 	"github.com/elastos/Elastos.ELA/core"
+	"github.com/elastos/Elastos.ELA/core/checkpoint"
 	"github.com/elastos/Elastos.ELA/core/contract"
 	"github.com/elastos/Elastos.ELA/core/contract/program"
 	"github.com/elastos/Elastos.ELA/core/transaction"
@@ -45,6 +50,7 @@ import (
 	"github.com/elastos/Elastos.ELA/core/types/interfaces"
 	"github.com/elastos/Elastos.ELA/core/types/outputpayload"
 	"github.com/elastos/Elastos.ELA/core/types/payload"
+	crstate "github.com/elastos/Elastos.ELA/cr/state"
 	"github.com/elastos/Elastos.ELA/crypto"
 	"github.com/elastos/Elastos.ELA/dpos/state"
 	"github.com/elastos/Elastos.ELA/elanet/pact"
@@ -502,6 +508,80 @@ func execRdc(t []string) string {
 	return "err other:" + strings.ReplaceAll(s, " ", "_")
 }
 
+// ---------------------------------------------------------------- RegisterCR key extraction, CRC arbiters m/n
+//
+//	rcr <code>            RegisterCRTransaction.SpecialContextCheck (payload version 0, CRInfo.Code = code, CID derived
+//	                      from it, during the first voting period): err codenil | err invalidcode | later | panic
+//	ina <tx|bc> <code>    checkCRCArbitratorsSignatures (core/transaction via CheckInactiveArbitrators with a CRC sponsor,
+//	                      or the blockchain copy): reject-len (the explicit length error) | later | panic
+
+var invalidCodeRe = regexp.MustCompile(`invalid code [0-9a-f]`)
+
+func execRcr(t []string) string {
+	if os.Getenv("C03_DEBUG") != "" {
+		defer func() {
+			if e := recover(); e != nil {
+				debug.PrintStack()
+				panic(e)
+			}
+		}()
+	}
+	code := exact(hx.UnHex(t[1]))
+	params := config.GetDefaultParams()
+	committee := crstate.NewCommittee(params, checkpoint.NewManager(params))
+	st := &state.State{StateKeyFrame: state.NewStateKeyFrame()}
+	chain := blockchain.VerifC03ChainCR(params, st, committee)
+	info := &payload.CRInfo{Code: code, NickName: "c03", Url: "http://c03"}
+	if len(code) > 0 {
+		ct, _ := contract.CreateCRIDContractByCode(code)
+		info.CID = *ct.ToProgramHash()
+	}
+	tx := functions.CreateTransaction(ctypes.TxVersion09, ctypes.RegisterCR, payload.CRInfoVersion, info,
+		[]*ctypes.Attribute{}, []*ctypes.Input{}, []*ctypes.Output{}, 0, []*program.Program{{Code: code, Parameter: []byte{}}})
+	height := params.CRConfiguration.CRVotingStartHeight + 1
+	if e := tx.SetParameters(&transaction.TransactionParameters{Transaction: tx, BlockHeight: height, Config: params, BlockChain: chain}); e != nil {
+		panic("harness: SetParameters")
+	}
+	err, _ := tx.SpecialContextCheck()
+	if err == nil {
+		return "later"
+	}
+	s := err.Error()
+	switch {
+	case strings.Contains(s, "code is nil"):
+		return "err codenil"
+	case invalidCodeRe.MatchString(s): // "invalid code <hex>" of the key extraction, not the later bare "invalid code"
+		return "err invalidcode"
+	case strings.Contains(s, "voting period"), strings.Contains(s, "already inuse"), strings.Contains(s, "already exist"), strings.Contains(s, "invalid cid"):
+		return "harness-precondition:" + strings.ReplaceAll(s, " ", "_")
+	}
+	return "later"
+}
+
+func execIna(t []string) string {
+	code := exact(hx.UnHex(t[2]))
+	p := &program.Program{Code: code, Parameter: []byte{}}
+	var err error
+	if t[1] == "bc" {
+		err = blockchain.VerifC03CheckCRCArbitratorsSignatures(p)
+	} else {
+		sponsor := arbKey(0)
+		m, e := state.NewOriginArbiter(sponsor)
+		if e != nil {
+			panic("harness: arbiter")
+		}
+		cbMock.CRCArbitrators = []state.ArbiterMember{m}
+		tx := functions.CreateTransaction(ctypes.TxVersion09, ctypes.InactiveArbitrators, 0,
+			&payload.InactiveArbitrators{Sponsor: sponsor, Arbitrators: [][]byte{}}, []*ctypes.Attribute{}, []*ctypes.Input{},
+			[]*ctypes.Output{}, 0, []*program.Program{p})
+		err = transaction.CheckInactiveArbitrators(tx)
+	}
+	if err != nil && strings.Contains(err.Error(), "length not enough") {
+		return "reject-len"
+	}
+	return "later"
+}
+
 // ---------------------------------------------------------------- exec
 
 func exec(t []string) string {
@@ -546,6 +626,10 @@ func exec(t []string) string {
 		return execBlk(t)
 	case "rdc":
 		return execRdc(t)
+	case "rcr":
+		return execRcr(t)
+	case "ina":
+		return execIna(t)
 	}
 	panic("harness: unknown op " + t[0])
 }
@@ -1049,8 +1133,27 @@ func genRdc(g *hx.Gen) {
 	}
 }
 
+func genRcrIna(g *hx.Gen) {
+	r := g.R
+	for l := 0; l <= 40; l++ {
+		for _, last := range []byte{0xAC, 0xAE, 0xAF, 0x00, 0x51} {
+			c := r.Bytes(l)
+			if l > 0 {
+				c[l-1] = last
+			}
+			if l == 35 && r.Bool() {
+				c[0], c[1] = 0x51, 33
+			}
+			g.Emit("rcr %s", hx.Hex(c))
+			g.Emit("ina tx %s", hx.Hex(c))
+			g.Emit("ina bc %s", hx.Hex(c))
+		}
+	}
+}
+
 func gen(g *hx.Gen) {
 	mrand.Seed(int64(g.Seed))
+	genRcrIna(g)
 	genBlk(g)
 	genRdc(g)
 	genScripts(g)
